@@ -166,7 +166,7 @@ func (e *verifLazyExit) DestinationUUID() flows.NodeUUID {
 		if zzverif.Choice("exit-has-destination", 2) == 1 {
 			d := zzverif.Byte("exit-destination")
 			zzverif.Assume(int(d) < e.nnodes)
-			e.dest = flows.NodeUUID(string([]byte{'f', byte('0' + e.flow), 'n', '0' + d}))
+			e.dest = flows.NodeUUID("a0000000-0000-4000-8000-000000000" + string([]byte{byte('0' + e.flow), '0' + d, '0'}))
 		}
 	}
 	return e.dest
